@@ -27,7 +27,7 @@ type sectorCtx struct {
 }
 
 func runSector(b *harness.B, share, shares int, light bool) {
-	nSec := b.Pick(10, 150)
+	nSec := b.Pick(10, 100)
 	if light {
 		nSec = 2
 	}
